@@ -1353,12 +1353,98 @@ fn restore_trial<R: RoleType, T: IsPacketId>(role: &'static str, ver: u8, steps:
     g.s.dead || b.dead
 }
 
+/// C17: an undetermined server receives a first CONNECT of level `v` (well-formed, or of a valid
+/// level but refused by the version's parser) and any traffic after it; the same script runs on a
+/// server created with version `v`.  The fixed-version object's trace carries, after every call,
+/// a `Y` line with what the undetermined object answered.
+fn undet_trial<R: RoleType, T: IsPacketId>(role: &'static str, steps: usize, rng: &mut Rng, name: &str, out: &mut dyn Write) -> bool {
+    let focus = rng.below(6) as u8;
+    let mut g = Gen::<R, T> {
+        s: Sess::new(0), rng, role, my_ids: vec![], inflight: vec![], rel_wait: vec![], peer_pubs: vec![], subs: vec![],
+        peer_mps: None, focus, legal: true, started: false, force_clean: None, force_ok: false, force_persist: false, force_ska: None, force_own_rm: None, force_peer_mps: None, force_peer_tam: None, boundary: false, plain_pub: false, force_sp: None,
+    };
+    let mut options = vec![];
+    for f in ["off", "apr", "aping", "amap", "arep"] {
+        let on = g.rng.chance(2, 5) as u8;
+        options.push(format!("set {f} {on}"));
+    }
+    for o in &options {
+        g.op(o.clone());
+    }
+    let i0 = g.s.out_lines.len();
+    let v = *g.rng.pick(&[4u8, 5]);
+    let ps = if v == 5 { g.conn_props(false) } else { vec![] };
+    let mut bytes = w_connect(v, g.rng.chance(1, 2), 10, b"cid", &ps);
+    match g.rng.below(6) {
+        0 => {
+            // truncated client identifier: one byte less, Remaining Length adjusted
+            bytes.pop();
+            bytes[1] -= 1;
+        }
+        1 => bytes[9] |= 1,          // reserved connect flag
+        2 => bytes[9] |= 0x18,       // will QoS 3
+        3 => {
+            // a trailing byte beyond the payload
+            bytes.push(0);
+            bytes[1] += 1;
+        }
+        _ => {}
+    }
+    g.op(format!("recv {}", hex(&bytes)));
+    if g.rng.chance(1, 2) && g.status() != "D" {
+        g.op(format!("recv {}", hex(&w_simple(0xc0))));
+    }
+    for _ in 0..steps {
+        if g.s.dead {
+            break;
+        }
+        g.step();
+    }
+    let a_lines: Vec<String> = g.s.out_lines[i0..].to_vec();
+    let s_ops = ops_of(&a_lines);
+    let pw = g.s.pw;
+    writeln!(out, "T conn {name}-undet role={role} pw={pw} ver=0 legal=1").unwrap();
+    for l in &g.s.out_lines {
+        writeln!(out, "{l}").unwrap();
+    }
+    writeln!(out, "END").unwrap();
+    let mut b = Sess::<R, T>::new(v);
+    for o in &options {
+        b.apply(o);
+    }
+    let j0 = b.out_lines.len();
+    for o in &s_ops {
+        b.apply(o);
+        if b.dead {
+            break;
+        }
+    }
+    writeln!(out, "T conn {name}-fixed role={role} pw={pw} ver={v} legal=1 cmp=C17").unwrap();
+    for (j, l) in b.out_lines.iter().enumerate() {
+        writeln!(out, "{l}").unwrap();
+        if j >= j0 {
+            let f: Vec<&str> = a_lines.get(j - j0).map(|x| x.split(" | ").collect()).unwrap_or_default();
+            if f.len() == 5 {
+                writeln!(out, "Y {} | {} | {} | {}", f[0].strip_prefix("X ").unwrap_or(f[0]), f[2], f[3], f[4]).unwrap();
+            } else {
+                writeln!(out, "Y - | MISSING | - | -").unwrap();
+            }
+        }
+    }
+    if a_lines.len() > b.out_lines.len() - j0 {
+        writeln!(out, "Y - | EXTRA {} | - | -", a_lines.len() - (b.out_lines.len() - j0)).unwrap();
+    }
+    writeln!(out, "END").unwrap();
+    g.s.dead || b.dead
+}
+
 pub fn generate(tier: &str, seed: u64, args: &[String], out: &mut dyn Write) {
     let mut rng = Rng::new(seed ^ 0xC0FFEE);
     let thorough = tier == "thorough";
     let mode: u8 = match args.first().map(|s| s.as_str()) {
         Some("reuse") => 1,
         Some("restore") => 2,
+        Some("undet") => 3,
         _ => 0,
     };
     let args: &[String] = if mode != 0 { &args[1..] } else { args };
@@ -1368,6 +1454,17 @@ pub fn generate(tier: &str, seed: u64, args: &[String], out: &mut dyn Write) {
     for i in 0..traces {
         let cfg = rng.below(14);
         let name = format!("w{seed}-{i}");
+        if mode == 3 {
+            let dead = match cfg % 4 {
+                0 | 1 => undet_trial::<Server, u16>("server", steps / 2, &mut rng, &name, out),
+                2 => undet_trial::<Any, u16>("any", steps / 2, &mut rng, &name, out),
+                _ => undet_trial::<Server, u32>("server", steps / 2, &mut rng, &name, out),
+            };
+            if dead {
+                panics += 1;
+            }
+            continue;
+        }
         let dead = match cfg {
             0 | 1 => walk::<Client, u16>("client", 5, steps, &mut rng, &name, out, mode),
             2 => walk::<Client, u16>("client", 4, steps, &mut rng, &name, out, mode),
